@@ -178,6 +178,12 @@ M = {
     "r11_release_sort": ("C11", [sub(F5, "        self.0.sort_unstable();\n        self.0.reverse();", "        self.0.sort_unstable();\n        if cfg!(debug_assertions) {\n            self.0.reverse();\n        } else {\n            self.0.swap(0, 4);\n            self.0.swap(1, 3);\n            self.0.swap(0, 1);\n        }")]),
     "c11_sort_masked_cmp": ("C11", [sub(F5, "        self.0.sort_unstable();\n        self.0.reverse();", "        self.0.sort_by(|a, b| (b >> 8).cmp(&(a >> 8)));")]),
     "l02_update_only_when_logging": ("C02", [sub("src/cards/six.rs", "                best_hrv = hrv;\n                best_hand = hand;", "                if log::log_enabled!(log::Level::Debug) {\n                    best_hrv = hrv;\n                }\n                best_hand = hand;")]),
+    # the same best-of loops written as index loops (decided by peeling), with the witness update broken
+    "x03_index_loop_hand_always": ("C03", [sub("src/cards/six.rs", "        for perm in Six::FIVE_CARD_PERMUTATIONS {\n            let hand = self.five_from_permutation(perm);\n            let hrv = hand.hand_rank_value();\n            if (best_hrv == 0) || hrv != 0 && hrv < best_hrv {\n                best_hrv = hrv;\n                best_hand = hand;\n            }",
+                                               "        for i in 0..Six::FIVE_CARD_PERMUTATIONS.len() {\n            let hand = self.five_from_permutation(Six::FIVE_CARD_PERMUTATIONS[i]);\n            let hrv = hand.hand_rank_value();\n            if (best_hrv == 0) || hrv != 0 && hrv < best_hrv {\n                best_hrv = hrv;\n            }\n            if hrv != 0 {\n                best_hand = hand;\n            }")]),
+    "x02_index_loop_skips_last": ("C02", [sub("src/cards/seven.rs", "        for perm in Seven::FIVE_CARD_PERMUTATIONS {\n            let hand = self.five_from_permutation(perm);", "        for i in 0..Seven::FIVE_CARD_PERMUTATIONS.len() - 1 {\n            let hand = self.five_from_permutation(Seven::FIVE_CARD_PERMUTATIONS[i]);")]),
+    "x02_index_loop_le_zero": ("C02", [sub("src/cards/six.rs", "        for perm in Six::FIVE_CARD_PERMUTATIONS {\n            let hand = self.five_from_permutation(perm);\n            let hrv = hand.hand_rank_value();\n            if (best_hrv == 0) || hrv != 0 && hrv < best_hrv {",
+                                           "        for i in 0..Six::FIVE_CARD_PERMUTATIONS.len() {\n            let hand = self.five_from_permutation(Six::FIVE_CARD_PERMUTATIONS[i]);\n            let hrv = hand.hand_rank_value();\n            if (best_hrv == 0) || hrv < best_hrv {")]),
     "p04_unique_any_consumes": ("C04", [sub("src/cards/seven.rs", "        let sorted = self.sort();\n        let mut last: CKCNumber = u32::MAX;\n        for c in sorted.iter() {\n            if *c >= last {\n                return false;\n            }\n            last = *c;\n        }\n        true", "        let mut rest = self.iter();\n        while let Some(card) = rest.next() {\n            if rest.any(|c| c == card) {\n                return false;\n            }\n        }\n        true")]),
 }
 
